@@ -241,7 +241,13 @@ class Universe:
         cp = self.find_in_class("df", "BaseDataFrame", "copy")
         body = [s for s in cp.node.body if not (isinstance(s, ast.Expr) and isinstance(s.value, ast.Constant))]
         txt = [ast.unparse(s) for s in body]
-        if txt != ["kwargs['join_on_uuid'] = str(uuid4())", "return self.__class__(**object_to_dict(self, **kwargs))"]:
+        first, last = "kwargs['join_on_uuid'] = str(uuid4())", "return self.__class__(**object_to_dict(self, **kwargs))"
+        deep = "kwargs.setdefault('pending_hints', [hint.copy() for hint in self.pending_hints])"
+        if txt == [first, last]:
+            self.shares_hints = True      # object_to_dict copies the hint LIST shallowly: hint objects are shared
+        elif txt == [first, deep, last]:
+            self.shares_hints = False     # every hint object is copied (sqlglot Expression.copy() is deep)
+        else:
             raise Untranslatable("BaseDataFrame.copy changed: " + " ; ".join(txt))
         if self.imports["df"].get("object_to_dict") != ("sqlglot.helper", "object_to_dict"):
             raise Untranslatable("object_to_dict is no longer sqlglot.helper.object_to_dict")
@@ -705,7 +711,7 @@ class Analyzer:
                     return set()
                 if k == "df":
                     return {("attr", root, a)}
-                return {("box", root, a)} if a == "pending_hints" else set()
+                return {("box", root, a)} if (a == "pending_hints" and U.shares_hints) else set()
             f = U.resolve("DF", a)
             if f is not None:
                 ds = [d[0] for d in _decos(f.node)]
@@ -761,6 +767,8 @@ class Analyzer:
         k = recv[0]
         fam = "DF" if k in ("df", "shr") else ("GD" if k == "gd" else recv[3])
         if fam == "DF" and name == "copy":
+            if "pending_hints" in kws:
+                raise Untranslatable(f"{where}: copy(pending_hints=...) bypasses the copying of hint objects")
             for tg in list(kws.values()) + args + [star]:
                 if any(t[0] in ("attr", "in", "box", "df") for t in tg):
                     raise Untranslatable(f"{where}: copy(...) is given an object of an existing DataFrame: {sorted(tg)}")
@@ -1210,12 +1218,13 @@ def generate(repo: str):
                     f"[{'; '.join(ws)}] {'true' if e['exec'] else 'false'} {e['ret']} "
                     f"{'true' if e['returns_self'] else 'false'}")
     L.append("Definition methods : list minfo := [\n" + ";\n".join(rows) + "\n].")
-    L.append("Definition gen_facts : facts := mkF methods wraps result_kind.")
+    L.append(f"Definition copy_shares_hints : bool := {'true' if U.shares_hints else 'false'}.")
+    L.append("Definition gen_facts : facts := mkF methods wraps result_kind copy_shares_hints.")
     facts = [{"name": "rank", "from": "operations.py: class Operation", "value": vals},
              {"name": "wrap_needed", "from": "operations.py: operation.wrapper", "hash": w_df["hash"], "text": w_df["test"]},
              {"name": "wrap_needed_group", "from": "operations.py: group_operation.wrapper", "hash": w_gr["hash"], "text": w_gr["test"]},
              {"name": "copy()+object_to_dict shape", "from": "dataframe.py: BaseDataFrame.copy; sqlglot.helper.object_to_dict",
-              "hash": U.copy_hash},
+              "hash": U.copy_hash, "copy_shares_hint_objects": U.shares_hints},
              {"name": "__init__ stores its parameters", "value": {"attrs": U.data_attrs, "immutable": sorted(U.immutable_attrs)}}]
     for e in entries:
         facts.append({"name": "summary:" + e["name"], "from": e["where"], "hash": e["hash"], "op": e["op"],
